@@ -88,6 +88,15 @@ func newWorld(r *rand.Rand, o worldOpts) *World {
 			w.Basics[nbas-1] = v
 		}
 	}
+	if r.Intn(6) == 0 {
+		// white-space variants of one name are different names (and different category paths)
+		base := w.Recipes[0]
+		for _, v := range []string{base + "/olive oil", base + "/olive  oil", base + "/olive\u00a0oil", base + " /olive oil"} {
+			if !inList(all, v) {
+				w.Unknown = append(w.Unknown, v)
+			}
+		}
+	}
 	if r.Intn(6) == 0 && nrec >= 3 && !inList(all, w.Recipes[0]+"\u00e9") && !inList(all, w.Recipes[0]+"e\u0301") {
 		// the same text in two Unicode normal forms is two different names: a recipe spelled with a
 		// precomposed é and an undefined food spelled with e + combining accent
@@ -103,7 +112,7 @@ func newWorld(r *rand.Rand, o worldOpts) *World {
 			concat = false
 		}
 	}
-	w.Book = gen.RandomBook(r, gen.BookOpts{Recipes: nrec, Basics: nbas, MaxDepth: 1 + r.Intn(4), Exact: o.Exact, RecipeNames: w.Recipes, BasicNames: w.Basics, NoEmpty: o.NoEmpty, NoZero: o.NoZero, Wide: wide})
+	w.Book = gen.RandomBook(r, gen.BookOpts{Recipes: nrec, Basics: nbas, MaxDepth: 1 + r.Intn(4), Exact: o.Exact, RecipeNames: w.Recipes, BasicNames: w.Basics, NoEmpty: o.NoEmpty, NoZero: o.NoZero, Wide: wide, Redeclare: r.Intn(8) == 0})
 	foods := append(append(append([]string{}, w.Recipes...), w.Recipes...), w.Basics...)
 	foods = append(foods, w.Unknown...)
 	days := o.MinDays + r.Intn(o.MaxDays-o.MinDays+1)
